@@ -345,6 +345,18 @@ func (c *Ctx) sanitiserSummary(san *FuncInfo, fn *types.Func, depth int) []int {
 func stringLitsComparedWith(info *types.Info, body ast.Node, pred func(e ast.Expr) bool) map[string]bool {
 	out := map[string]bool{}
 	ast.Inspect(body, func(n ast.Node) bool {
+		// `switch x { case "lit": ... }` compares x with each case literal
+		if sw, ok := n.(*ast.SwitchStmt); ok && sw.Tag != nil && pred(sw.Tag) {
+			for _, cc := range sw.Body.List {
+				for _, e := range cc.(*ast.CaseClause).List {
+					if lit, ok := ast.Unparen(e).(*ast.BasicLit); ok && lit.Kind == token.STRING {
+						if s, err := strconv.Unquote(lit.Value); err == nil {
+							out[s] = true
+						}
+					}
+				}
+			}
+		}
 		be, ok := n.(*ast.BinaryExpr)
 		if !ok || (be.Op != token.EQL && be.Op != token.NEQ) {
 			return true
